@@ -57,6 +57,14 @@ class Interp:
         if isinstance(v, VNone): return z3.BoolVal(False)
         if isinstance(v, VTuple): return z3.BoolVal(len(v.items) > 0)
         if isinstance(v, VList): return z3.Length(v.seqs[0]) > 0
+        if isinstance(v, VDict):
+            # non-emptiness of a symbolic dict: an uninterpreted predicate of its domain, with the instances
+            # "a known key is present => non-empty" for the arbitrary (skolem) keys of this path
+            ne = z3.Function('dict_nonempty_' + str(v.dom.sort().domain()), v.dom.sort(), BoolSort)(v.dom)
+            for y in getattr(ctx, '_skolems', {}).values():
+                if y.sort() == v.dom.sort().domain():
+                    ctx.assume(z3.Implies(z3.Select(v.dom, y), ne))
+            return ne
         if isinstance(v, VChunks): raise OutOfSubset('truth value of a chunk list')
         if isinstance(v, VEmptyList): return z3.BoolVal(False)
         if isinstance(v, (VRef, VFunc, VClosure, VClass, VModule, VExc, VMethod)): return z3.BoolVal(True)
